@@ -19,10 +19,16 @@ HASH_VALUES = {
     "h1 = c + 1 (hash write)": (4, lambda st: st.local("c") + 1),
     "h2 = h1 + d": (8, lambda st: st.zext(st.hash("h1", 4), 64) + st.local("d")),
     "h2 = d * 3 + c (aligned frame)": (8, lambda st: st.local("d") * 3 + st.zext(st.local("c"), 64)),
+    "h2 = c (narrow local into a 64-bit cell)": (8, lambda st: st.zext(st.local("c"), 64)),
+    "h2 = g (signed narrow local into a 64-bit cell)": (8, lambda st: st.sext(st.local("g"), 64)),
     "h2 = h2 + 5 (aligned frame)": (8, lambda st: st.hash("h2", 8) + 5),
 }
 MAPVARS = {"m1": "I", "m2": "Q"}
 HASHVARS = {"h1": "I", "h2": "q"}
+
+
+# statements that belong to C09's program side only (C04's frame programs skip them)
+C09_ONLY = ("c = c + h1 (hash read while r0 is in use)", "lookup: h2 = h1; v2 += 1")
 
 
 def statements():
@@ -59,11 +65,27 @@ def statements():
     def s_hash_hash(p):
         p.h2 = p.h1 + p.d
 
+    def s_narrow(p):
+        p.h2 = p.c
+
+    def s_narrow_signed(p):
+        p.h2 = p.g
+
     def s_aligned_1(p):
         p.h2 = p.d * 3 + p.c
 
     def s_aligned_2(p):
         p.h2 = p.h2 + 5
+
+    def s_hash_operand(p):
+        p.c = p.c + p.h1
+
+    def s_lookup_copy(p):
+        p.table.key.k1 = 5
+        p.table.key.k2 = 7
+        with p.table.lookup() as (value, Else):
+            p.h2 = p.h1
+            value.v2 = value.v2 + 1
 
     def s_dict_update(p):
         p.table.key.k1 = 5
@@ -84,8 +106,12 @@ def statements():
             "d = ktime": ("d", s_ktime), "c = prandom & 0xffff": ("c", s_prandom), "f = 1 (bit)": ("f", s_bit),
             "e = e * 2.5": ("e", s_fixed), "m1 = b + a": ("m1", s_map_from_local),
             "h2 = h1 + d": ("h2", s_hash_hash),
+            "h2 = c (narrow local into a 64-bit cell)": ("h2", s_narrow),
+            "h2 = g (signed narrow local into a 64-bit cell)": ("h2", s_narrow_signed),
             "h2 = d * 3 + c (aligned frame)": ("h2", s_aligned_1),
             "h2 = h2 + 5 (aligned frame)": ("h2", s_aligned_2),
+            "c = c + h1 (hash read while r0 is in use)": ("c", s_hash_operand),
+            "lookup: h2 = h1; v2 += 1": ("h2", s_lookup_copy),
             "table[5,7] = (d, 9) (Dict update)": (None, s_dict_update),
             "c = table[5,7].v2 (Dict lookup)": ("c", s_dict_lookup)}
 
